@@ -25,6 +25,16 @@ CLAIMED = {
          "Reference outcome is ion-go's own traversal over whole delivery; Go runtime and bufio trusted; lenient reading for transient read failures that lose nothing.",
          "deterministic simulation with fault injection: simulated Source/Sink, per-byte read-fault and per-call write-fault enumeration, explicit replay cases",
          "DESIGN.md section 3 C19"),
+ "C08": ("exploration",
+         "Seeded navigation programs (skip, leave unread, step out after k children, refused calls) are run against the real Reader over whole and chunked simulated delivery and compared observation by observation with a reference cursor walking the tree of ion-go's own plain traversal. Seeded search over documents x programs x delivery schedules; every failure is an explicit replayable case.",
+         "Reference is ion-go's own plain full traversal (the property is stated relative to it); symbol tokens compared by text then SID.",
+         "deterministic simulation: seeded caller programs as the schedule, reference-cursor model, simulated Source delivery plans",
+         "DESIGN.md section 3 C08"),
+ "C12": ("exploration",
+         "Seeded Writer call sequences (legal, misuse, reuse after Finish) on five writer configurations, fault-free twice and with one transient or sticky sink failure, checked call by call against a protocol automaton (stickiness of errors) and, when the final Finish returns nil, by independent spec-derived decoders against the automaton's value tree.",
+         "Trusted: ionsim ref/bin and ref/text decoders, the protocol automaton; documented-open program points only held to P/S/V1/D.",
+         "deterministic simulation with fault injection: seeded call-sequence programs, executable protocol automaton as reference model, simulated Sink failures, independent decoders",
+         "DESIGN.md section 3 C12"),
 }
 
 PENDING = ["C06", "C07", "C08", "C10", "C12", "C18"]
